@@ -43,7 +43,7 @@ def plan(tier):
 
 
 def n_cases(tier):
-    return {'A1': 700, 'A2': 700, 'B': 900, 'T': 40} if tier == 'thorough' else {'A1': 35, 'A2': 35, 'B': 45, 'T': 3}
+    return {'A1': 700, 'A2': 700, 'B': 900, 'T': 40} if tier == 'thorough' else {'A1': 35, 'A2': 35, 'B': 45, 'T': 6}
 
 
 def slow_sinks(prog, rng):
@@ -106,8 +106,14 @@ def gen_case(rng, fam):
     # threaded
     nthreads = rng.choice([1, 2, 3, 4])
     chain = rng.choice([['map'], ['map', 'rate_limit'], ['rate_limit'], ['map', 'filter'], ['accumulate']])
-    return {'family': 'T', 'threads': nthreads, 'per_thread': rng.randrange(2, 6), 'chain': chain,
+    case = {'family': 'T', 'threads': nthreads, 'per_thread': rng.randrange(2, 6), 'chain': chain,
             'sink_ms': rng.choice([0, 1, 3]), 'sink_kind': rng.choice(['coro', 'future', 'sync'])}
+    if rng.random() < 0.3:
+        # a consumer that outlasts the internal polling period of the blocking wait: the harness scales the
+        # timeouts streamz passes to threading.Event.wait by 1/100 (10 s -> 0.1 s) and makes the consumer take 0.25 s
+        case.update({'scaled_waits': True, 'sink_ms': 250, 'per_thread': 1, 'threads': rng.choice([1, 2]),
+                     'sink_kind': rng.choice(['coro', 'future'])})
+    return case
 
 
 # ---------------------------------------------------------------------------
@@ -115,7 +121,7 @@ def gen_case(rng, fam):
 def check_async(case, counters, sets):
     fam = case['family']
     ar = asyncrun.run_async(case)
-    if ar.stop in ('iter-cap', 'vt-cap'):
+    if ar.stop in ('iter-cap', 'vt-cap', 'watchdog'):
         return ar, None
     viols, seen = [], set()
 
@@ -257,6 +263,19 @@ def check_threaded(case, counters, sets):
     from tornado import gen
     lock = threading.Lock()
     events = []
+    import streamz.core as score
+    real_threading = score.threading
+    if case.get('scaled_waits'):
+        class FastEvent(threading.Event):
+            def wait(self, timeout=None):
+                return threading.Event.wait(self, None if timeout is None else timeout / 100.0)
+
+        class Shim:
+            Event = FastEvent
+
+            def __getattr__(self, name):
+                return getattr(real_threading, name)
+        score.threading = Shim()
 
     def rec(*a):
         with lock:
@@ -327,6 +346,10 @@ def check_threaded(case, counters, sets):
     for t in ths:
         t.join(max(0.1, deadline - time.time()))
     hung = any(t.is_alive() for t in ths)
+    score.threading = real_threading
+    if case.get('scaled_waits'):
+        time.sleep(0.4)         # let the consumers finish before the next case
+        counters['T_emits_outlasting_the_wait_period'] = counters.get('T_emits_outlasting_the_wait_period', 0) + case['threads']
     s.destroy()
     if hung:
         return None, None
